@@ -24,6 +24,8 @@ def unparse(node):
 
 
 def short(node, n=160):
+    if node is None:
+        return "<missing>"           # an argument / construct the rule looked for is not there: compares unequal to any text
     s = " ".join(unparse(node).split())
     return s if len(s) <= n else s[: n - 3] + "..."
 
